@@ -137,3 +137,7 @@ pub mod bloom {
 // --- BEGIN wsD C20 (re-export of the in-module hook of server.rs)
 pub use crate::server::verif_hook as server_hook;
 // --- END wsD C20
+
+// --- BEGIN C28/C29/C30
+pub use crate::nts::verif_hook as nts;
+// --- END C28/C29/C30
